@@ -499,6 +499,25 @@ non-zero class mean no `z` satisfies the solve specification -/
 theorem lda_partial_witness (z : Nat → Rat) : rsum 1 (fun k => z k * (0 : Rat)) ≠ 1 := by
   norm_num [rsum]
 
+/-- **LDA estimates the pooled covariance** (every dataset, partition, number of classes): the
+matrix `LDA::train` assembles from second moments, `Σ x xᵀ/(n−C) − Σ_c n_c/(n−C)·m_c m_cᵀ`, is the
+pooled within-class covariance `Σ_i (x_i − m_{c_i})(x_i − m_{c_i})ᵀ / (n − C)` (plus `reg` on the
+diagonal when `reg > 0`). -/
+theorem lda_pooled_covariance (bs : CData) (classes : Nat) (reg : Rat) (i j : Nat)
+    (hlab : ∀ p ∈ bs.flatten, p.2 < classes) :
+    ldaCov bs classes reg i j
+      = withinScatter bs i j / (((count bs : Nat) : Rat) - (classes : Nat))
+        + (if i = j ∧ 0 < reg then reg else 0) := by
+  unfold ldaCov
+  dsimp only
+  rw [← scatter_identity bs classes i j hlab]
+  have : ∀ c, c < classes →
+      classCount bs c / (((count bs : Nat) : Rat) - (classes : Nat)) * (ldaMean bs c i * ldaMean bs c j)
+      = classCount bs c * (ldaMean bs c i * ldaMean bs c j) / (((count bs : Nat) : Rat) - (classes : Nat)) := by
+    intro c _; ring
+  rw [rsum_congr this, rsum_div]
+  ring
+
 /-- **FisherLDA's global mean** as it should be, `Σ_c n_c·m_c / n`, is the mean of the inputs;
 the pinned source divides once more by `n` (`fisherMeanPinned = mean / n`, finding F-C15-6), so
 its offset `−W·mean` does not centre the projected data. -/
